@@ -397,6 +397,9 @@ package termincommittee
 //@     | && commitMessages[i].content.SignedHeader().View() == commitMessages[0].content.SignedHeader().View()
 //@     | && commitMessages[i].content.SignedHeader().BlockHash() == commitMessages[0].content.SignedHeader().BlockHash()
 //@   requires [O3.1.height] commitMessages[0].content.SignedHeader().BlockHeight() == caller.State.height
+//@   requires [O3.1.the-commits-handed-over-carry-a-quorum] forall qids []primitives.MemberId :: len(qids) == len(commitMessages)
+//@     | && (forall qk :: 0 <= qk && qk < len(qids) ==> qids[qk] == commitMessages[qk].content.Sender().MemberId())
+//@     | ==> SW(qids, caller.committeeMembers, len(caller.committeeMembers)) >= Qz(SumMW(caller.committeeMembers, len(caller.committeeMembers)))
 //@   requires [O13.6.commit-heights-strictly-increase] block != nil && block.Height() == caller.State.height && lastCommitHeight < block.Height()
 //@   requires [O4.1.block-satisfies-certified-hash] Commits(caller.blockUtils, commitMessages[0].content.SignedHeader().BlockHeight(), block, commitMessages[0].content.SignedHeader().BlockHash())
 //@   requires [O4.1.block-of-accepted-proposal] block != nil && ppStored[commitMessages[0].content.SignedHeader().View()]
